@@ -76,7 +76,8 @@ class Bag(object):
     def __init__(self, **kw): self.__dict__.update(kw)
 
 
-def _mk_provider(kind, memory, st):
+def _mk_provider(kind, memory, st, con_cls=None):
+    con_cls = con_cls or FakeCon
     if kind == 'sqlite':
         p = object.__new__(sq.SQLiteProvider)
         p.pre_transaction_lock = GhostLock('pre'); p.transaction_lock = GhostLock('txn')
@@ -97,7 +98,7 @@ def _mk_provider(kind, memory, st):
 
     def _connect():
         effect('pool._connect', err)()
-        c = FakeCon(len(st['cons']), err); st['cons'].append(c); pool.con = c
+        c = con_cls(len(st['cons']), err); st['cons'].append(c); pool.con = c
     pool._connect = _connect
     # ghost instrumentation of the pool's public operations (the real methods run; only events are recorded)
     for opname in ('connect', 'release', 'drop'):
